@@ -70,7 +70,7 @@ def run(ctx, eng):
         if cs is None:
             for e in p.events:
                 if e.kind == 'assume' and \
-                        T.show(e.cond) in ('self.config.client_side',
+                        cm.show0(e.cond) in ('self.config.client_side',
                                            'not self.config.client_side'):
                     cs = e.cond[0] != 'not'
                     break
@@ -109,7 +109,7 @@ def run(ctx, eng):
     for p in normal:
         cs = None
         for e in p.events:
-            if e.kind == 'assume' and T.show(e.cond) in (
+            if e.kind == 'assume' and cm.show0(e.cond) in (
                     'self.config.client_side', 'not self.config.client_side'):
                 cs = e.cond[0] != 'not'
                 break
@@ -220,7 +220,7 @@ def run(ctx, eng):
         cs = None
         for e in p.events:
             if e.kind == 'assume':
-                s = T.show(e.cond)
+                s = cm.show0(e.cond)
                 if s == 'self.highest_outbound_stream_id':
                     hw = True
                 elif s == 'not self.highest_outbound_stream_id':
@@ -229,7 +229,7 @@ def run(ctx, eng):
                     cs = True
                 elif s == 'not self.config.client_side':
                     cs = False
-        vals[(hw, cs)] = T.show(p.value)
+        vals[(hw, cs)] = cm.show0(p.value)
     ok = vals.get((False, True)) == '1' and vals.get((False, False)) == '2' \
         and vals.get((True, None)) == 'self.highest_outbound_stream_id + 2'
     ctx.ob('ARITH.next-id', fi.qual, 'next stream id', ok,
